@@ -170,6 +170,7 @@ def gen_real(c):
         # (negative irradiation temperature: the profile refuses it)
         fit = [f for f in fit if f['name'] != 'T_irr']
         fit.append({'name': 'T_irr', 'mode': 'linear', 'set_prior': True,
+                    'signed': True,
                     'prior': c.choice([
                         {'kind': 'Uniform', 'args': {'bounds': [-900.0, 2200.0]}},
                         {'kind': 'Gaussian', 'args': {'mean': 300.0,
